@@ -238,6 +238,16 @@ def _validation_task(task):
                         for fname, fv in forms:
                             fsig = "C12:%s default %s:%s:FractionScalar(%s) %s in %s" % (qt, du, kind[0], fname, n, u)
                             _validate_object(part, fsig, None, FractionScalar("lim", fv, u), truth, [a], lo, hi, lx, hx)
+                # ---- ONE FractionScalar whose FractionValue (held by reference) the caller edits in place between the
+                # validations: the verdict follows the amount it holds now
+                finite = [j for j in range(len(xs)) if math.isfinite(xs[j])]
+                if finite:
+                    fv_shared = FractionValue(number=xs[finite[0]])
+                    fs_shared = FractionScalar("lim", fv_shared, u)
+                    for j in finite + finite[::-1]:
+                        fv_shared.SetNumber(xs[j])
+                        truth_j = okv[j] if has_limits else True
+                        _validate_object(part, "C12:%s default %s:%s:one FractionScalar, its FractionValue edited in place to %s in %s" % (qt, du, kind[0], names[j], u), None, fs_shared, truth_j, [amounts[j]], lo, hi, lx, hx)
                 # ---- arrays: every sequence of length 0..maxlen over the alphabet
                 idx = range(len(xs))
                 for L in range(maxlen + 1):
